@@ -238,6 +238,7 @@ package whispertool
 
 //@ func NewHeader
 //@   props C07
+//@   plain result0
 //@   modifies archiveInfoList[0:len(archiveInfoList)]
 //@   ensures iff: result1 == nil <==> (1 <= aggregationMethod && aggregationMethod <= 6 && 0.0 <= xFilesFactor && xFilesFactor <= 1.0 && wellFormed(archiveInfoList))
 //@   ensures ok: result1 == nil ==> result0 != nil && fresh(result0) && validHeader(*result0) && result0.aggregationMethod == aggregationMethod
